@@ -13,7 +13,8 @@ RULE = ('70% E1 histories (pure scheduler API) and 30% E2 histories (Master + Zk
         'pressure. Non-trivial = a history in which an instance was placed '
         'while another was displaced in the same cycle (eviction/restore '
         'path) or a placed instance had its allocation changed. distinct = '
-        'distinct canonical JSON.')
+        'distinct canonical JSON.'
+        ' Since rounds 5-7: frozen loaded servers under pressure, allocation moves of instances sitting on frozen/down servers, two self-detected (unpublished) traits that may first appear in one server record.')
 ASSUMPTIONS = [
     'virtual clock replaces treadmill.scheduler.time',
     'the partition of an instance is the partition of the allocation it was '
